@@ -506,6 +506,51 @@ def rule_x1x2(ctx):
                         "no radians->degrees scaling (180/pi) exists: "
                         "degrees=True returns radians", instance=inst)
             continue
+        # unit typestate: once the angles may be in degrees, no radian
+        # constant is added to them (outside a test of `degrees`)
+        for g, n, guarded, formok in sites:
+            if g is not f:
+                continue
+            tgt = n.target if isinstance(n, ast.AugAssign) else n.targets[0]
+            while isinstance(tgt, ast.Subscript):
+                tgt = tgt.value
+            var = dotted(tgt)
+            conv_pos = (n.lineno, n.col_offset)
+            for st in ast.walk(f.node):
+                if not isinstance(st, (ast.Assign, ast.AugAssign)):
+                    continue
+                if (st.lineno, st.col_offset) <= conv_pos:
+                    continue
+                t2 = st.target if isinstance(st, ast.AugAssign) \
+                    else st.targets[0]
+                while isinstance(t2, ast.Subscript):
+                    t2 = t2.value
+                if dotted(t2) != var:
+                    continue
+                uses_pi = any(
+                    (isinstance(x, ast.Name) and x.id == "pi")
+                    or (isinstance(x, ast.Attribute) and x.attr == "pi")
+                    for x in ast.walk(st.value))
+                if not uses_pi:
+                    continue
+                # under a test of the flag?
+                cur, under = st, False
+                while cur is not f.node:
+                    par = f.module.parents[cur]
+                    if isinstance(par, ast.If) and "degrees" in dotted(
+                            par.test):
+                        under = True
+                    cur = par
+                if under:
+                    continue
+                r.violation(
+                    "X2", f"{f.fq}|radians-after-conversion", loc(f, st),
+                    norm_stmt(st)[:140],
+                    f"`{var}` has (for degrees=True) already been converted "
+                    "to degrees when this statement combines it with a "
+                    "multiple of pi: the reported angle pair is off by "
+                    "2*pi degrees instead of a full turn",
+                    instance=inst + ":unit")
         for g, n, guarded, formok in sites:
             if guarded is True and formok:
                 r.ok("X2", inst, loc(g, n), norm_stmt(n),
